@@ -62,7 +62,7 @@ def _run_lpe(mod, ob, exclude):
     fn = mod.HARNESS[ob["harness"]]
     res = eng.explore(lambda: fn(params))
     if res["verdict"] == "cex":
-        rep = lpe.ConcreteEngine(res["inputs"]).run(lambda: fn(params))
+        rep = lpe.ConcreteEngine(_shift_to_real_clock(res["inputs"])).run(lambda: fn(params))
         if rep.get("verdict") != "cex" and ob.get("replay_zones"):
             # counterexamples that involve naive (local) times: replay under each process zone
             import os
@@ -73,7 +73,7 @@ def _run_lpe(mod, ob, exclude):
                 for z in ob["replay_zones"]:
                     os.environ["TZ"] = z
                     _t.tzset()
-                    rep = lpe.ConcreteEngine(res["inputs"]).run(lambda: fn(params))
+                    rep = lpe.ConcreteEngine(_shift_to_real_clock(res["inputs"])).run(lambda: fn(params))
                     if rep.get("verdict") == "cex":
                         rep["zone"] = z
                         break
@@ -95,6 +95,27 @@ class _HardTimeout(BaseException):
 
 def _on_alarm(signum, frame):
     raise _HardTimeout()
+
+
+def _shift_to_real_clock(inputs):
+    """Counterexamples that involve the symbolic insertion clock (`clock<k>` inputs) relate stored /
+    compared times to "now".  The replay runs on the real clock, so every time input (t*, x*, u*:
+    microseconds) is shifted by the same amount such that the model's first clock value becomes the
+    present; all order relations between times and clock values are preserved."""
+    import re as _re
+    import time as _t
+
+    if not inputs:
+        return inputs
+    clocks = [v for k, v in inputs.items() if _re.fullmatch(r"clock\d+", k) and isinstance(v, int)]
+    if not clocks:
+        return inputs
+    delta = int(_t.time() * 1_000_000) + 2_000_000 - min(clocks)
+    out = dict(inputs)
+    for k, v in inputs.items():
+        if _re.fullmatch(r"[txu]\d+", k) and isinstance(v, int):
+            out[k] = v + delta
+    return out
 
 
 def run_ob(ob):
@@ -372,7 +393,7 @@ def replay_file(path):
 
         params = dict(body["params"] or {})
         params["exclude"] = body.get("excluded", [])
-        rep = lpe.ConcreteEngine(body["inputs"] or {}).run(lambda: mod.HARNESS[body["harness"]](params))
+        rep = lpe.ConcreteEngine(_shift_to_real_clock(body["inputs"] or {})).run(lambda: mod.HARNESS[body["harness"]](params))
     print(json.dumps(rep, indent=1, default=str))
     if rep.get("verdict") == "cex":
         print(f"VIOLATION property={body['property']} replay={path}")
